@@ -398,22 +398,122 @@ func (e *Env) RAliasFlow() {
 		}
 	}
 	e.Run.Check("R-ALIAS", "findAlias returns (x, x) or (x, \"\")", e.Prog.Pos(findAlias.Pos()), okRets, fmt.Sprintf("returns: %v — the alias in the spec must be the name used in code, or empty when that name is the package's own", rets))
-	// the (x, "") return is guarded by !aliased && x == resolved[path]
-	guardOK := false
+	// the (x, "") return: the alias is omitted only when the chosen name is the package's own
+	// (x == resolved[path] is a conjunct of the guard) and no alias was requested for the path —
+	// either the guard says so (a conjunct that is the second parameter compared with "", taken
+	// before the parameter is given a default, directly or through a local), or no requested
+	// path ever gets an entry in `resolved` (every store resolved[k] lies behind a guard that
+	// leaves when effectiveAlias has k), so the comparison fails for it.
+	guardOK, why := false, "no `return x, \"\"`"
+	prefName := ""
+	if findAlias.Type.Params != nil {
+		var ps []string
+		for _, f := range findAlias.Type.Params.List {
+			for _, n := range f.Names {
+				ps = append(ps, n.Name)
+			}
+		}
+		if len(ps) == 2 {
+			prefName = ps[1]
+		}
+	}
+	// locals that hold `preferred != ""` / `preferred == ""` at entry
+	requested := map[string]bool{} // expression text -> true when it means "an alias was requested"
+	if prefName != "" {
+		requested[prefName+` != ""`] = true
+		requested[`!(`+prefName+` == "")`] = true
+		for _, st := range findAlias.Body.List {
+			as, ok := st.(*ast.AssignStmt)
+			if !ok {
+				if _, isIf := st.(*ast.IfStmt); isIf {
+					break // the default may be assigned from here on
+				}
+				continue
+			}
+			if as.Tok == token.DEFINE && len(as.Lhs) == 1 && len(as.Rhs) == 1 {
+				if id, ok := as.Lhs[0].(*ast.Ident); ok && types.ExprString(ast.Unparen(as.Rhs[0])) == prefName+` != ""` {
+					requested[id.Name] = true
+				}
+			}
+		}
+	}
+	prefReassignedBefore := func(n ast.Node) bool {
+		re := false
+		ast.Inspect(findAlias.Body, func(m ast.Node) bool {
+			if as, ok := m.(*ast.AssignStmt); ok && as.Pos() < n.Pos() {
+				for _, l := range as.Lhs {
+					if id, ok := l.(*ast.Ident); ok && id.Name == prefName {
+						re = true
+					}
+				}
+			}
+			return true
+		})
+		return re
+	}
+	storesGuarded := func() (bool, string) {
+		n := 0
+		bad := ""
+		ast.Inspect(fd.Body, func(m ast.Node) bool {
+			as, ok := m.(*ast.AssignStmt)
+			if !ok {
+				return true
+			}
+			for _, l := range as.Lhs {
+				ix, ok := ast.Unparen(l).(*ast.IndexExpr)
+				if !ok || c.ExprStr(ix.X) != "resolved" {
+					continue
+				}
+				n++
+				k := types.ExprString(ix.Index)
+				cond, _ := pathCond(c, fd.Body.List, as)
+				if !aliasedExcluded(fd.Body, as, k) {
+					bad = "resolved[" + k + "] is stored at " + e.Prog.Pos(as.Pos()) + " under `" + cond + "`, which does not exclude a path that has an effective alias (from the source or the Alias map)"
+				}
+			}
+			return true
+		})
+		if n == 0 {
+			return false, "no store into resolved[...] found"
+		}
+		return bad == "", bad
+	}
 	ast.Inspect(findAlias.Body, func(nd ast.Node) bool {
 		is, ok := nd.(*ast.IfStmt)
 		if !ok || len(is.Body.List) != 1 {
 			return true
 		}
-		if rs, ok := is.Body.List[0].(*ast.ReturnStmt); ok && len(rs.Results) == 2 && c.ExprStr(rs.Results[1]) == `""` {
-			cond := c.ExprStr(is.Cond)
-			x := c.ExprStr(rs.Results[0])
-			guardOK = cond == "!aliased && "+x+" == resolved[path]" || cond == x+" == resolved[path] && !aliased"
+		rs, ok := is.Body.List[0].(*ast.ReturnStmt)
+		if !ok || len(rs.Results) != 2 || c.ExprStr(rs.Results[1]) != `""` {
+			return true
+		}
+		x := types.ExprString(rs.Results[0])
+		own, notReq := false, false
+		for _, cj := range splitTopAnd(types.ExprString(is.Cond)) {
+			cj = strings.TrimSpace(cj)
+			switch {
+			case cj == x+" == resolved[path]" || cj == "resolved[path] == "+x:
+				own = true
+			case strings.HasPrefix(cj, "!") && requested[strings.TrimPrefix(cj, "!")]:
+				notReq = true
+			case prefName != "" && cj == prefName+` == ""` && !prefReassignedBefore(is):
+				notReq = true
+			}
+		}
+		switch {
+		case !own:
+			guardOK, why = false, "the alias is dropped under `"+types.ExprString(is.Cond)+"`, which does not say that the chosen name is the resolved name of the package"
+		case notReq:
+			guardOK, why = true, ""
+		default:
+			guardOK, why = storesGuarded()
+			if !guardOK {
+				why = "the guard `" + types.ExprString(is.Cond) + "` does not ask whether an alias was requested, and " + why + ": an alias written in the source that equals the package name is removed"
+			}
 		}
 		return true
 	})
-	e.Run.Check("R-ALIAS", "the alias is omitted only when none was requested and the chosen name is the resolved package name", e.Prog.Pos(findAlias.Pos()), guardOK,
-		"expected `if !aliased && current == resolved[path] { return current, \"\" }`")
+	e.Run.Check("R-ALIAS", "the alias is omitted only when none was requested and the chosen name is the resolved package name", e.Prog.Pos(findAlias.Pos()), guardOK, why)
 	// precedence: importsFound loop, then r.Alias loop, both store effectiveAlias[path]
 	var order []string
 	ast.Inspect(fd.Body, func(nd ast.Node) bool {
@@ -1160,6 +1260,36 @@ func returnsOf(c *schema.Ctx, fd *ast.FuncDecl) ([]funcReturn, bool) {
 		return true
 	}
 	ast.Inspect(fd.Body, visit)
+	return out, good
+}
+
+// returnsOfBody: returnsOf for the body of a function literal.
+func returnsOfBody(c *schema.Ctx, body []ast.Stmt) ([]funcReturn, bool) {
+	blk := &ast.BlockStmt{List: body}
+	if len(body) > 0 {
+		blk.Lbrace, blk.Rbrace = body[0].Pos()-1, body[len(body)-1].End()
+	}
+	undo := c.InstallReachingIn(blk)
+	defer undo()
+	var out []funcReturn
+	good := true
+	ast.Inspect(blk, func(n ast.Node) bool {
+		switch x := n.(type) {
+		case *ast.FuncLit:
+			return false
+		case *ast.ReturnStmt:
+			cond, ok := pathCond(c, body, x)
+			if !ok {
+				good = false
+			}
+			r := funcReturn{cond: cond, pos: x.Pos()}
+			for _, res := range x.Results {
+				r.results = append(r.results, c.ExprStr(res))
+			}
+			out = append(out, r)
+		}
+		return true
+	})
 	return out, good
 }
 
@@ -2286,7 +2416,7 @@ func (e *Env) RQuietRearrange() {
 	ast.Inspect(fd.Body, func(nd ast.Node) bool {
 		switch x := nd.(type) {
 		case *ast.CallExpr:
-			if fn := c.Callee(x); fn != nil && fn.Pkg() != nil && fn.Pkg().Path() == "sort" && len(x.Args) >= 1 {
+			if fn := c.Callee(x); fn != nil && fn.Pkg() != nil && isSortPkg(fn) && len(x.Args) >= 1 {
 				if se, ok := x.Args[0].(*ast.SelectorExpr); ok && se.Sel.Name == "Specs" && isGenDecl(se.X) {
 					check(x, "the block is re-sorted")
 				}
@@ -3074,4 +3204,102 @@ func (e *Env) closureParamFrom(info *types.Info, c *schema.Ctx, fd *ast.FuncDecl
 		return true
 	})
 	return calls > 0 && good
+}
+
+// aliasedExcluded: the statement target (a store keyed by k) is reached only when effectiveAlias
+// has no entry for k: an enclosing block has an earlier sibling `if _, ok := effectiveAlias[k]; ok
+// [|| …] { continue | return | break }`, or target lies in the body of `if _, ok :=
+// effectiveAlias[k]; !ok [&& …]`, or in the else of `…; ok`.
+func aliasedExcluded(body *ast.BlockStmt, target ast.Node, k string) bool {
+	lookup := func(is *ast.IfStmt) string { // the name of the ok variable of `_, ok := effectiveAlias[k]`
+		as, ok := is.Init.(*ast.AssignStmt)
+		if !ok || len(as.Lhs) != 2 || len(as.Rhs) != 1 {
+			return ""
+		}
+		ix, ok := ast.Unparen(as.Rhs[0]).(*ast.IndexExpr)
+		if !ok || types.ExprString(ix.X) != "effectiveAlias" || types.ExprString(ix.Index) != k {
+			return ""
+		}
+		id, ok := as.Lhs[1].(*ast.Ident)
+		if !ok {
+			return ""
+		}
+		return id.Name
+	}
+	var operands func(x ast.Expr, op token.Token) []ast.Expr
+	operands = func(x ast.Expr, op token.Token) []ast.Expr {
+		x = ast.Unparen(x)
+		if b, ok := x.(*ast.BinaryExpr); ok && b.Op == op {
+			return append(operands(b.X, op), operands(b.Y, op)...)
+		}
+		return []ast.Expr{x}
+	}
+	leaves := func(b *ast.BlockStmt) bool {
+		if len(b.List) == 0 {
+			return false
+		}
+		switch s := b.List[len(b.List)-1].(type) {
+		case *ast.ReturnStmt:
+			return true
+		case *ast.BranchStmt:
+			return s.Tok == token.CONTINUE || s.Tok == token.BREAK
+		}
+		return false
+	}
+	found := false
+	var visit func(list []ast.Stmt)
+	visit = func(list []ast.Stmt) {
+		for i, st := range list {
+			if !(st.Pos() <= target.Pos() && target.End() <= st.End()) {
+				continue
+			}
+			// earlier siblings that leave when the key is aliased
+			for _, prev := range list[:i] {
+				is, ok := prev.(*ast.IfStmt)
+				if !ok || is.Else != nil || !leaves(is.Body) {
+					continue
+				}
+				if okv := lookup(is); okv != "" {
+					for _, d := range operands(is.Cond, token.LOR) {
+						if id, ok := d.(*ast.Ident); ok && id.Name == okv {
+							found = true
+						}
+					}
+				}
+			}
+			// enclosing if on the lookup itself
+			if is, ok := st.(*ast.IfStmt); ok {
+				if okv := lookup(is); okv != "" {
+					inBody := is.Body.Pos() <= target.Pos() && target.End() <= is.Body.End()
+					for _, d := range operands(is.Cond, token.LAND) {
+						if u, ok := d.(*ast.UnaryExpr); ok && u.Op == token.NOT && inBody {
+							if id, ok := ast.Unparen(u.X).(*ast.Ident); ok && id.Name == okv {
+								found = true
+							}
+						}
+					}
+					if id, ok := ast.Unparen(is.Cond).(*ast.Ident); ok && id.Name == okv && !inBody && is.Else != nil {
+						found = true
+					}
+				}
+			}
+			// descend
+			ast.Inspect(st, func(n ast.Node) bool {
+				if n == st {
+					return true
+				}
+				if b, ok := n.(*ast.BlockStmt); ok && b.Pos() <= target.Pos() && target.End() <= b.End() {
+					visit(b.List)
+					return false
+				}
+				if cc, ok := n.(*ast.CaseClause); ok && cc.Pos() <= target.Pos() && target.End() <= cc.End() {
+					visit(cc.Body)
+					return false
+				}
+				return true
+			})
+		}
+	}
+	visit(body.List)
+	return found
 }
